@@ -212,6 +212,37 @@ func genInputs(kind string, seed int64, n int) []N {
 			"c := chan(1)\nc <- c\n<-c", "c := chan()\nspawn(func() { c <- 1 })\nclose(c)\ntime.sleep(0.05)"} {
 			add("import time\n" + s)
 		}
+	case "illformed":
+		// structurally invalid programs the compiler must refuse with an error: loop control in the wrong
+		// place at different distances into a body, malformed declarations, limits
+		pads := []int{0, 1, 3, 8, 20, 40}
+		for _, n := range pads {
+			pad := strings.Repeat("y := 1\n", n)
+			for _, kw := range []string{"break", "continue"} {
+				add("for i := 0; i < 2; i++ {\nf := func() {\n" + pad + kw + "\n}\nf()\n}")
+				add("for i := range 3 {\n" + pad + "f := func() {\n" + pad + "if i > 0 {\n" + kw + "\n}\n}\nf()\n}")
+				add("for _, v := range [1, 2] {\n[1].each(func(x) {\n" + pad + kw + "\n})\n}")
+				add("for {\nfunc g() {\n" + pad + "switch 1 {\ncase 1:\n" + kw + "\n}\n}\ng()\nbreak\n}")
+				add("for i := 0; i < 1; i++ {\ndefer func() {\n" + pad + kw + "\n}()\n}")
+				add("for i := 0; i < 1; i++ {\ngo func() {\n" + pad + kw + "\n}()\n}")
+				add("func f() {\nfor i := 0; i < 1; i++ {\nfunc() {\nfunc() {\n" + pad + kw + "\n}()\n}()\n}\n}\nf()")
+				add(pad + kw)
+				add("func f() {\n" + pad + kw + "\n}\nf()")
+				add("if true {\n" + pad + kw + "\n}")
+				add("switch 1 {\ncase 1:\n" + pad + kw + "\n}")
+				add("x := func(a=1) {\n" + pad + kw + "\n}")
+			}
+			add(pad + "return 1\n" + pad)
+			add("for i := 0; i < 2; i++ {\n" + pad + "return i\n}")
+		}
+		for _, s := range []string{"func f(a, a) { return a }", "func f(a, b=1, c) { return a }", "func f(a=1, a=2) {}", "const c = 1\nc = 2", "const c = 1\nc++",
+			"const c = 1\nc += 1", "x := 1\nx := 2", "func f() {}\nfunc f() {}", "f()\nfunc f() { g() }", "import 5", "from a import", "x, y := 1", "x, x := [1, 2]",
+			"a, b = [1, 2]", "1 = 2", "f() = 3", "[1][0] := 2", "x.y := 3", "nil = 1", "true := 1", "func() {}.x = 1", "defer 1", "go 1", "defer", "go",
+			"func f(" + strings.Repeat("a, ", 300) + "z) {}", "f(" + strings.Repeat("1, ", 300) + "1)\nfunc f() {}", "x := [" + strings.Repeat("1, ", 1100) + "1]\nlen(x)",
+			"m := {" + strings.Repeat("\"k\": 1, ", 600) + "\"z\": 1}\nlen(m)", "switch 1 {\ndefault:\ndefault:\n}", "switch {\n}", "for i := 0; ; {\nbreak\n}", "for ;; {\nbreak\n}",
+			"func f() { return 1, 2 }", "x := if true { 1 }", "x := switch 1 { case 1: 2 }", "x := for i := 0; i < 1; i++ {}", "'{'", "'{1 +}'", "'{break}'", "'{func() { break }}'"} {
+			add(s)
+		}
 	case "deep":
 		for _, d := range []int{10, 1000, 5000} {
 			add(strings.Repeat("(", d) + "1" + strings.Repeat(")", d))
